@@ -17,5 +17,6 @@ INVARIANT Antisymmetry
 INVARIANT ActDifference
 INVARIANT DetailedBalance
 INVARIANT KeqActRatio
+INVARIANT ActWithoutTSRefused
 PROPERTY CallerUntouched
 CHECK_DEADLOCK FALSE
